@@ -69,11 +69,7 @@ class C05(Check):
     def prepare(self, ctx):
         self.programs = corpus.load()
         self.the_plan = self.plan(ctx.tier)
-        result = ctx.run({"id": "startup", "files": {"/sim/main.lay": "nil;"}, "main": "/sim/main.lay",
-                          "gc": schedules.every("full")})
-        if not result["fired"]:
-            raise core.HarnessError("no collection fired in the start-up probe")
-        self.startup = result["fired"][0][0]
+        self.startup = self.startup_probe(ctx)
 
     # ---- cases
     def make(self, ctx, index):
